@@ -66,8 +66,22 @@ func (r *c13Rule) value() rule.Rule {
 
 var c13SyscallNums = []string{"-1", "0", "31", "32", "2047", "2048", "2049", "2063", "2079", "2080", "2111", "2112", "4095", "4096", "65535", "2147483647", "2147483648", "4294967295", "4294967296", "1000000000000000000000000000000", "-2147483648", "0x7ff", "0x800", "0x81f", "all", "", " ", "open", "nosuchcall", "٣"}
 
+// c13Soup concatenates 1-5 fragments of the punctuation the value parsers of the rule package look for
+// (bracketed type numbers, signs, base prefixes, errno names, separators): near-misses of every
+// structured value syntax, e.g. "][", "UNKNOWN]1329[", "-E", "0x-1", "[[1]".
+func c13Soup(r *mon.Rand) string {
+	frags := []string{"UNKNOWN", "[", "]", "[", "]", "1329", "1", "-", "+", "0x", "E", "EPERM", "x", " ", ",", "=", "b", "64", "unset", "\x00", "'", "65536", "4294967296"}
+	var sb strings.Builder
+	for i, n := 0, r.Range(1, 5); i < n; i++ {
+		sb.WriteString(mon.Pick(r, frags))
+	}
+	return sb.String()
+}
+
 func c13HostileString(r *mon.Rand) string {
-	switch r.Intn(10) {
+	switch r.Intn(12) {
+	case 10, 11:
+		return c13Soup(r)
 	case 0:
 		return ""
 	case 1:
@@ -119,6 +133,10 @@ func c13GenRule(r *mon.Rand) *c13Rule {
 	fields := rulegen.AllFieldNames()
 	for i := 0; i < nf; i++ {
 		f := rule.FilterSpec{Type: rule.FilterType(r.Intn(4)), LHS: mon.Pick(r, fields), Comparator: mon.Pick(r, rulegen.AllOps), RHS: c13HostileString(r)}
+		if r.Chance(1, 3) {
+			// the fields whose values go through a parser of their own
+			f.LHS = mon.Pick(r, []string{"msgtype", "exit", "arch", "perm", "filetype", "uid", "gid", "auid", "a0", "success", "inode", "devmajor", "pers", "saddr_fam", "sessionid", "field_compare"})
+		}
 		if r.Chance(1, 5) {
 			f.LHS = c13HostileString(r)
 		}
@@ -416,6 +434,33 @@ func c13Run(c *mon.Ctx) {
 		ev.Add(1)
 		nt.AddBytes(wire)
 	})
+	// (a0) otherwise valid single-filter rules whose VALUE is hostile: every field name x every list x
+	// hostile strings, so that each field's own value parser is reached directly (in a rule that is wrong
+	// in several places Build gives up at the first one)
+	if !alloc {
+		fieldsAll := rulegen.AllFieldNames()
+		lists := []string{"exit", "user", "exclude", "task"}
+		fixed := []string{"][", "]1[", "UNKNOWN]1329[", "a]b[1]", "[", "]", "UNKNOWN[", "UNKNOWN[]", "UNKNOWN[1", "UNKNOWN1]", "UNKNOWN[-1]", "UNKNOWN[65536]", "UNKNOWN[ 1]", "[1]", "-", "--1", "-E", "-EPERM ", "0x", "-0x", "0x-1", "+", "1e3", "٣", " ", "\x00", "unset ", "b", "b6", "rwxaa", ",", "="}
+		per := c.Pick(40, 3000)
+		c.ForEach(len(fieldsAll)*len(lists)*per, func(w, i int) {
+			r := c.Rand(8, uint64(i))
+			f := fieldsAll[i/(len(lists)*per)]
+			l := lists[(i/per)%len(lists)]
+			v := c13Soup(r)
+			if j := i % per; j < len(fixed) {
+				v = fixed[j]
+			} else if r.Chance(1, 4) {
+				v = c13HostileString(r)
+			}
+			rl := &c13Rule{Form: "syscall", List: l, Action: "always", Filters: []rule.FilterSpec{{Type: rule.ValueFilterType, LHS: f, Comparator: mon.Pick(r, []string{"=", "=", "!=", "&"}), RHS: v}}}
+			if r.Chance(1, 4) {
+				rl.Filters = append([]rule.FilterSpec{{Type: rule.ValueFilterType, LHS: "arch", Comparator: "=", RHS: mon.Pick(r, []string{"b64", "b32", "x86_64", "aarch64"})}}, rl.Filters...)
+			}
+			e.build(w, rl)
+			ev.Add(1)
+			c.Add("single_hostile_value_builds", 1)
+		})
+	}
 	// (a) hostile Rule values
 	nb := c.Pick(100_000, 3_000_000)
 	if alloc {
@@ -522,7 +567,7 @@ func c13Run(c *mon.Ctx) {
 func init() {
 	register(&mon.CheckSpec{
 		ID: "C13", Level: "exploration",
-		Rule: "cases = (a) Build on hostile Rule values (arbitrary strings for list/action/field/operator/value/keys, syscall numbers at and beyond every mask-word boundary incl. 2047..2112, 2^31, 2^32, 10^30, every number 2000..2199 alone, 0-200 filters, nil / typed-nil / foreign Rule implementations, hostile watch paths and access types); (b) ToCommandLine on valid wire images with EACH of the 260 header words replaced by boundary values {0,1,63,64,65,255,2^16,2^31-1,2^31,2^32-1,buflen+-1,...}, every truncation length, multi-word mutants, bit flips, random bytes, string-length wrap-around headers - inputs placed so they end at a PROT_NONE guard page; (c) flags.Parse (+Build of what it returns) on mutated real rule lines and random strings. Monitors: recovered panic, 30 s hang bound, guard-page fault, per-call allocation bound 64*len+1MiB measured in single-worker child processes under ulimit -v, and the post-condition that ToCommandLine succeeds only on structurally valid input. distinct_nontrivial = distinct corrupted wire images and distinct hostile lines.",
+		Rule: "cases = (a0) Build on otherwise valid single-filter rules - every field name x every list - whose value is a near-miss of a structured value syntax (bracketed type numbers, signs, base prefixes, errno names; punctuation soup); (a) Build on hostile Rule values (arbitrary strings for list/action/field/operator/value/keys, syscall numbers at and beyond every mask-word boundary incl. 2047..2112, 2^31, 2^32, 10^30, every number 2000..2199 alone, 0-200 filters, nil / typed-nil / foreign Rule implementations, hostile watch paths and access types); (b) ToCommandLine on valid wire images with EACH of the 260 header words replaced by boundary values {0,1,63,64,65,255,2^16,2^31-1,2^31,2^32-1,buflen+-1,...}, every truncation length, multi-word mutants, bit flips, random bytes, string-length wrap-around headers - inputs placed so they end at a PROT_NONE guard page; (c) flags.Parse (+Build of what it returns) on mutated real rule lines and random strings. Monitors: recovered panic, 30 s hang bound, guard-page fault, per-call allocation bound 64*len+1MiB measured in single-worker child processes under ulimit -v, and the post-condition that ToCommandLine succeeds only on structurally valid input. distinct_nontrivial = distinct corrupted wire images and distinct hostile lines.",
 		Assumptions: []string{
 			"allocation is measured with runtime.MemStats.TotalAlloc around each call in processes that run one worker, so the delta belongs to the call",
 			"a read past the input is observed only when it crosses the end of the slice into the guard page (plus ASan in the thorough tier)",
